@@ -42,6 +42,8 @@ class C10Stream(A.ActorStream):
             V("stop: a stop()/wait()/run() call had not returned 60 s after every actor was stopped")
         # ---- per loop task: restart policy
         loops = {}     # tid -> dict
+        cur_lim = {i: _limit(a) for i, a in enumerate(case["actors"])}    # restart limit in force, per actor
+        changed = set()                                                  # actors whose limit was changed on the way
         fin_at = {}    # tid -> (log index, time) at which the task finished
         owner = {}     # tid -> (actor, log index of creation)
         for i, e in enumerate(log):
@@ -61,8 +63,8 @@ class C10Stream(A.ActorStream):
                 if L["last"] == "final":
                     V(f"no-restart: _run of actor {L['a']} re-invoked after it ended with {L['exit'][-1][1]}")
                 if L["last"] == "limit":
-                    V(f"restart-limit: _run of actor {L['a']} re-invoked after {len(L['exit'])} failures, limit "
-                      f"{_limit(case['actors'][L['a']])}")
+                    V(f"restart-limit: _run of actor {L['a']} re-invoked after {len(L['exit'])} failures "
+                      f"({len(L['exit']) - 1} restarts already consumed) although the restart limit in force was {L.get('lim_at_end')}")
                 if L["last"] == "created" and e[0] != L["t0"]:
                     V(f"delay: first invocation at t={e[0]}us, started at t={L['t0']}us")
                 if L["last"] == "failed" and e[0] != L["exit"][-1][0] + delays[L["a"]]:
@@ -70,13 +72,18 @@ class C10Stream(A.ActorStream):
                       f"restart delay is {delays[L['a']]}us ({case['actors'][L['a']].get('delay', 'base class')})")
                 L["enter"].append(e[0])
                 L["last"] = "run"
+            elif k == "setlimit":
+                cur_lim[e[2]] = e[3]
+                changed.add(e[2])
             elif k == "exit":
                 L = loops[e[2]]
                 L["exit"].append((e[0], e[3]))
                 if e[3] == "exc":
-                    lim = _limit(case["actors"][L["a"]])
+                    lim = cur_lim[L["a"]]          # the limit IN FORCE at this failure
                     nexc = sum(1 for x in L["exit"] if x[1] == "exc")
-                    L["last"] = "failed" if (lim is None or nexc <= lim) else "limit"
+                    L["lim_at_end"] = lim
+                    # restarts consumed so far = nexc - 1; restart iff they are below the limit
+                    L["last"] = "failed" if (lim is None or nexc - 1 < lim) else "limit"
                 else:
                     L["last"] = "final"
                 if L["last"] != "failed":
@@ -106,8 +113,8 @@ class C10Stream(A.ActorStream):
                 if not obs["hung"]:
                     V(f"stop: loop task {tid} of actor {L['a']} still pending after the actor was stopped")
                 continue
-            expected = nexc if L["dc"] else 1 + (nexc if lim is None else min(nexc, lim))
-            if len(L["enter"]) != expected:
+            expected = nexc if L["dc"] else 1 + (nexc if lim is None else min(nexc, max(0, lim)))
+            if L["a"] not in changed and len(L["enter"]) != expected:
                 V(f"restart-count: actor {L['a']} (limit {lim}) had {nexc} failing runs and {len(L['enter'])} invocations, "
                   f"expected {expected}" + (" (cancelled while waiting to restart)" if L["dc"] else ""))
             if L["last"] == "failed":
